@@ -471,15 +471,42 @@ def check_dist(ctx, fail, row, dom, entries, labeling, where):
     st, n = call(lambda: len(row))
     if st == "err" or n != len(exp_dom):
         fail("dist", f"{where}: len {n!r} != {len(exp_dom)}")
+        return
+    st, pr = call(lambda: list(row.probs))
+    ctx.evaluations += 1
+    if st == "err" or len(pr) != len(entries) or not all(num_eq(q, p) for q, p in zip(pr, entries)):
+        fail("dist", f"{where}: probs {str(pr)[:80]} are not the entries {list(entries)}")
+        return
+    if sum(entries) > 0:
+        # a draw from a seeded generator is an event of the row with a positive entry
+        st, x = call(lambda: row.sample(rng=random.Random(len(entries) + int(sum(entries)))))
+        ctx.evaluations += 1
+        hit = [p for e, p in zip(exp_dom, entries) if st == "ok" and same_label(x, e)]
+        if st == "err" or not hit or not hit[0] > 0:
+            fail("dist", f"{where}: sample(rng=seeded) gave {srepr(x) if st == 'ok' else type(x).__name__}, "
+                         f"not an event of {srepr(exp_dom)} with a positive entry in {list(entries)}")
+            return
     st, q = call(lambda: row.prob(lab(FA, labeling)))
     if st == "err" or q != 0:
         ctx.drift("dist-prob-foreign", {"got": repr(q)})
 
 
-def check_iface(ctx, fail, obj, doms, cells, labeling, where):
-    """keys / iteration / items / values / len walk the outermost domain in order."""
+def kind_of(x):
+    from msdm.core.distributions import FiniteDistribution
+    if isinstance(x, FiniteDistribution):
+        return "distribution"
+    return "sub-table" if is_table(x) else "cell"
+
+
+def check_iface(ctx, fail, obj, doms, cells, labeling, where, root_last=None):
+    """keys / iteration / items / values / len walk the outermost domain in order; what items() / values() yield
+    is what t[key] gives (same cells, same kind; rows of a probability table are distributions on every path)."""
+    from msdm.core.table import ProbabilityTable
     if not doms:
         return
+    # the values are rows of a probability table: one more open field, and it is the table's last field
+    rows = (isinstance(obj, ProbabilityTable) and len(doms) == 2 and root_last is not None
+            and list(obj.table_index.field_names)[-1] == root_last)
     exp_keys = [conc(v, labeling) for v in doms[0]]
     inner = 1
     for d in doms[1:]:
@@ -517,6 +544,24 @@ def check_iface(ctx, fail, obj, doms, cells, labeling, where):
             if bad:
                 fail("items", f"{where}: items()/values() entry under {srepr(k)} is not the sub-table / cell of that key")
                 return
+        st, direct = call(lambda: obj[k])
+        ctx.evaluations += 1
+        for path, s in (("items()", sub), ("values()", val)):
+            if st == "ok" and kind_of(s) != kind_of(direct):
+                fail("items", f"{where}: {path} yields a {kind_of(s)} ({type(s).__name__}) under {srepr(k)} where "
+                              f"[{srepr(k)}] gives a {kind_of(direct)} ({type(direct).__name__})")
+                return
+            if st == "ok" and type(s) is not type(direct):
+                ctx.drift("items-class", {"path": path, "yielded": type(s).__name__, "getitem": type(direct).__name__})
+            if rows or (st == "ok" and kind_of(direct) == "distribution"):
+                flag = [True]
+
+                def dfail(kind, what, _flag=flag):
+                    _flag[0] = False
+                    fail("items", what)
+                check_dist(ctx, dfail, s, doms[1], block, labeling, f"{where}: row under {srepr(k)} yielded by {path}")
+                if not flag[0]:
+                    return
     # policy rows
     if len(doms) == 2 and type(obj).__name__ == "TabularPolicy":
         from msdm.core.mdp.tables import StateActionIndexError
@@ -591,7 +636,7 @@ def judge_transition(ctx, table, state, tr, obj, root_names, objcls, labeling, c
                 if tr["row"] and isinstance(obj, ProbabilityTable):
                     check_dist(ctx, fail, r, tr["odoms"][0], tr["ocells"], labeling, "row")
                 if tr["_h"] % state["iface_mod"] == 0:
-                    check_iface(ctx, fail, r, tr["odoms"], tr["ocells"], labeling, "result")
+                    check_iface(ctx, fail, r, tr["odoms"], tr["ocells"], labeling, "result", root_last=root_names[-1])
     # ------------------------------------------------ against the reference machine (DRIFT only)
     if agreed[0]:
         rdoms, rcells = (tr["odoms"], tr["ocells"]) if tr["same"] else (tr["rdoms"], tr["rcells"])
@@ -633,6 +678,9 @@ def judge_transition(ctx, table, state, tr, obj, root_names, objcls, labeling, c
                 same = same or not agreed[0]        # [] itself is already reported
             else:
                 same = (st2 == "ok" and g is not sentinel and not tr["odoms"] and num_eq(g, tr["ocells"][0])) or not agreed[0]
+            if same and agreed[0] and tr["row"] and isinstance(obj, ProbabilityTable) and g is not r:
+                check_dist(ctx, lambda k, w: fail("get-differs", w, method="get"), g, tr["odoms"][0], tr["ocells"],
+                           labeling, "row through get()")
             if not same:
                 fail("get-differs", f"get() gave {str(g)[:80]} where [] gave {str(r)[:80]}", method="get")
         elif st == "err" and strict:
@@ -727,7 +775,7 @@ def judge_table(ctx, table, tid, states, combos, *, mutate=None, build_hook=None
                                   {"table": {"doms": table["doms"]}, "hist": _state["hist"], "sel": "view", "cls": cls,
                                    "labeling": labeling, "container": cname})
                 check_iface(ctx, sfail, obj, state["doms"], state["cells"], labeling,
-                            f"{type(obj).__name__} view (root {cls}, chain of {len(state['hist'])})")
+                            f"{type(obj).__name__} view (root {cls}, chain of {len(state['hist'])})", root_last=root_names[-1])
             if only_sel == "view":
                 continue
             for tr in state["trans"]:
